@@ -27,7 +27,10 @@ for p in $list; do
   t1=$(date +%s.%N)
   git -C /repo checkout -- .
   line=$(echo "$out" | grep -m1 "^violation class" | cut -c1-230)
-  if [ $code = 1 ]; then pass=$((pass+1)); verdict=CAUGHT; else fail=$((fail+1)); verdict="MISSED(exit $code)"; fi
+  outside=no
+  case "$p" in */seeded/*) outside=$(python3 -c "import json,sys;print('yes' if json.load(open(sys.argv[1])).get('outside_claim') else 'no')" "$(dirname "$p")/meta.json");; esac
+  if [ $code = 1 ]; then pass=$((pass+1)); verdict=CAUGHT
+  elif [ $outside = yes ] && [ $code = 0 ]; then verdict="OUTSIDE-CLAIM"; else fail=$((fail+1)); verdict="MISSED(exit $code)"; fi
   printf "%-8s %-4s %-45s tests=%s %5.1fs  %s\n" "$verdict" "$prop" "$name" "$tests" "$(echo "$t1 - $t0" | bc)" "$line"
 done
 rm -f "$ROOT"/replays/*.json
